@@ -697,6 +697,7 @@ struct RestoreHooks<'a> {
 impl<'a, E: Est> Hooks<E> for RestoreHooks<'a> {
     fn restored(&mut self, id: usize, before: &E, json: &str, after: &E) -> Result<(), Viol> {
         self.st.bump("fault.crash_restart_worker");
+        self.st.bump(crate::medium::KEYS[crate::medium::pick(json) as usize]);
         self.st.oracle_evals += 1;
         if let Some(d) = bits_diff(before, after) {
             return Err(Viol::new(
